@@ -7,7 +7,7 @@ PROP=$1; WT=$2; NAME=${3:-$1}
 export GOFLAGS=-mod=mod GOPROXY=off
 OUT=/verif/seeded/$NAME; mkdir -p $OUT
 cd $WT || exit 2
-CHANGED=$(git diff --name-only | grep -v '^seeded_demo' | tr '\n' ' ')
+CHANGED=$(git diff --name-only | grep -v 'seeded_demo' | tr '\n' ' ')
 git diff -- $CHANGED > $OUT/patch.diff
 DEMO=$(ls seeded_demo_test.go seeded_demo*_test.go 2>/dev/null | head -3 | tr '\n' ' ')
 [ -d seeded_demo ] && cp -r seeded_demo $OUT/ 
@@ -16,6 +16,8 @@ echo "== changed: $CHANGED" | tee $OUT/confirm.log
 ( go build ./... && go vet . ) >> $OUT/confirm.log 2>&1; echo "build+vet rc=$?" | tee -a $OUT/confirm.log
 RUNDEMO="go test -count=1 -run Seeded -timeout 10m ."
 [ -z "$DEMO" ] && [ -d seeded_demo ] && RUNDEMO="go run ./seeded_demo"
+[ -f s3/seeded_demo_test.go ] && { RUNDEMO="env -u AWS_CA_BUNDLE go test -count=1 -run Seeded ./s3/"; cp s3/seeded_demo_test.go $OUT/; }
+grep -q 'tags vfs' SEEDED.md 2>/dev/null && [ -d seeded_demo ] && RUNDEMO="env CGO_ENABLED=1 go run -tags vfs ./seeded_demo"
 ( $RUNDEMO ) > $OUT/demo_with.log 2>&1; W=$?; echo "demo WITH change rc=$W (expect non-zero)" | tee -a $OUT/confirm.log
 git apply -R $OUT/patch.diff
 ( $RUNDEMO ) > $OUT/demo_without.log 2>&1; WO=$?; echo "demo WITHOUT change rc=$WO (expect 0)" | tee -a $OUT/confirm.log
